@@ -4,7 +4,7 @@ import ast
 from ..core import sym
 from ..core.expand import u, call_name, get_arg, bind_args, Expander, is_marker, phi_alternatives
 from ..core.loader import Inconclusive, const_value, parents
-from .common import (returns, all_nodes, callee, strip_shape, calls_in, guards_of, stmt_of, kw, find_assignments, in_loop,
+from .common import (explicit_guards_of, returns, all_nodes, callee, strip_shape, calls_in, guards_of, stmt_of, kw, find_assignments, in_loop,
                      result_fields, compare_nf, loops_around)
 
 EXPLANATION = (
@@ -140,7 +140,7 @@ def rule_undersampling(ck):
             probs.append("the status is not set to 'undersampled': a recomputed statistic would be reported as 'normal'")
         (o.fail('; '.join(probs)) if probs else o.ok("recomputed on sampled cells, status 'undersampled'"))
         # default message is 'normal' set before the branch
-        m0 = [a for a in find_assignments(f, 'message') if not guards_of(a, f.node)]
+        m0 = [a for a in find_assignments(f, 'message') if not explicit_guards_of(a, f.node)]
         oo = ck.ob('C10-D2.default', f, m0[0] if m0 else 'message', m0[0] if m0 else f.node)
         (oo.ok() if len(m0) == 1 and const_value(m0[0].value) == 'normal' and m0[0].lineno < ifs[0].lineno else oo.fail("the default status 'normal' is not set before the undersampling branch"))
     # the logs in _compute_likelihood are plain numpy.log
@@ -414,7 +414,8 @@ def rule_formulas(ck):
     g = P.func(CE + 'MLL_magnitude_test')
     for c in calls_in(P, g, 'csep.utils.stats.MLL_score'):
         oo = ck.ob('C10-D4.mllcall', g, c, c)
-        kws = {k.arg: u(k.value) for k in c.keywords}
+        bm, _okb = bind_args(m, c)
+        kws = {k_: u(v_) for k_, v_ in bm.items() if k_ in m.positional_params[:2]}
         sim = in_loop(c, g.node) is not None
         want = {'union_catalog_counts': 'Lambda_u_histogram', 'catalog_counts': 'Lambda_j_histogram' if sim else 'Omega_histogram'}
         (oo.ok() if kws == want else oo.fail('MLL_score is called with %s, expected %s' % (kws, want)))
